@@ -21,6 +21,7 @@ func c20(c *Ctx) (*report.Result, error) {
 	res.RuleDoc["O20.2"] = "malformed metadata is rejected: missing metadata and the error of history.DecodeClusterShardMD are returned as errors"
 	res.RuleDoc["O20.3"] = "bookkeeping balance: the +1 report for the stream's shard is followed at once by a deferred -1 report with the same shard value through the same reporter"
 	res.RuleDoc["O20.4"] = "a shared lock cannot be leaked: every critical section of the stream observer's and the stream tracker's mutexes is released by a defer placed before any instruction that may panic, or contains no instruction that may panic and is released on every path"
+	res.RuleDoc["O20.6"] = "a shared lock cannot wedge its holder: inside a critical section of a shared mutex no call (through module callees and closures) acquires the same mutex again, and distinct shared mutexes are nested in one order only"
 	res.RuleDoc["O20.5"] = "untrusted ids never enter narrow arithmetic: no +,-,*,<< on a value of a type narrower than 64 bits that derives from the decoded cluster/shard ids without a dominating upper bound or a widening conversion"
 	res.Floors["O20.4"] = 10
 
@@ -131,7 +132,9 @@ func feedsInstr(v ssa.Value, target ssa.Instruction) bool {
 
 func checkMetadataRejected(c *Ctx, res *report.Result, h *ssa.Function) {
 	rule := "O20.2"
-	dec := flow.FindCalls(h, func(cc *ssa.CallCommon) bool { return flow.IsCallTo(cc, srvPath+"/client/history", "", "DecodeClusterShardMD") })
+	dec := flow.FindCalls(h, func(cc *ssa.CallCommon) bool {
+		return flow.IsCallTo(cc, srvPath+"/client/history", "", "DecodeClusterShardMD")
+	})
 	if len(dec) != 1 {
 		res.Undec(rule, "StreamWorkflowReplicationMessages: DecodeClusterShardMD call", fnPos(c.Prog, h), fmt.Sprintf("%d calls", len(dec)))
 		return
@@ -315,6 +318,108 @@ func checkSharedLocks(c *Ctx, res *report.Result) {
 			}
 		}
 	}
+	// ---- O20.6: no re-entrant acquisition / no lock-order cycle among the shared locks.
+	// acquires(g): the shared mutexes g locks, itself or through module callees and closures.
+	acq := map[*ssa.Function]map[string]bool{}
+	var acquires func(g *ssa.Function, depth int) map[string]bool
+	acquires = func(g *ssa.Function, depth int) map[string]bool {
+		if m, ok := acq[g]; ok {
+			return m
+		}
+		m := map[string]bool{}
+		acq[g] = m
+		if depth > 8 || g.Blocks == nil {
+			return m
+		}
+		for _, op := range flow.MutexOps(g) {
+			if op.Op != "Lock" && op.Op != "RLock" {
+				continue
+			}
+			if fa, ok := op.Instr.Common().Args[0].(*ssa.FieldAddr); ok {
+				if nt := namedOf(fa.X.Type()); nt != nil && shared[nt.Obj().Name()+"."+op.Field] {
+					m[nt.Obj().Name()+"."+op.Field] = true
+				}
+			}
+		}
+		for _, cal := range flow.Callees(g, true) {
+			if cal.Package() == nil || !strings.HasPrefix(cal.Package().Pkg.Path(), modPath) {
+				continue
+			}
+			for k := range acquires(cal, depth+1) {
+				m[k] = true
+			}
+		}
+		return m
+	}
+	rule6 := "O20.6"
+	order := map[string]map[string]string{} // held -> acquired -> where
+	n6 := 0
+	for _, f := range c.Prog.RepoFuncs() {
+		if f.Package() != sp {
+			continue
+		}
+		for _, sec := range flow.Sections(f) {
+			fa, ok := sec.Lock.Instr.Common().Args[0].(*ssa.FieldAddr)
+			if !ok {
+				continue
+			}
+			nt := namedOf(fa.X.Type())
+			if nt == nil || !shared[nt.Obj().Name()+"."+sec.Lock.Field] {
+				continue
+			}
+			held := nt.Obj().Name() + "." + sec.Lock.Field
+			n6++
+			bad := false
+			for _, ins := range sec.Instrs {
+				call, isCall := ins.(ssa.CallInstruction)
+				if !isCall {
+					continue
+				}
+				if _, isDefer := ins.(*ssa.Defer); isDefer {
+					continue
+				}
+				var targets []*ssa.Function
+				if cal := flow.StaticCallee(call.Common()); cal != nil {
+					targets = append(targets, cal)
+				}
+				if mc, isMC := call.Common().Value.(*ssa.MakeClosure); isMC {
+					if fn, okf := mc.Fn.(*ssa.Function); okf {
+						targets = append(targets, fn)
+					}
+				}
+				for _, cal := range targets {
+					if cal.Package() == nil || !strings.HasPrefix(cal.Package().Pkg.Path(), modPath) {
+						continue
+					}
+					for k := range acquires(cal, 0) {
+						if k == held {
+							bad = true
+							res.Viol(rule6, fmt.Sprintf("%s: no re-entrant acquisition of %s", shortFn(f), held), instrPos(c.Prog, ins), "while holding "+held+" the function calls "+shortFn(cal)+", which acquires the same non-reentrant mutex: the goroutine blocks on itself, the lock is never released and every later stream blocks on it")
+						} else {
+							if order[held] == nil {
+								order[held] = map[string]string{}
+							}
+							order[held][k] = instrPos(c.Prog, ins)
+						}
+					}
+				}
+			}
+			if !bad {
+				res.Hold(rule6, fmt.Sprintf("%s: no re-entrant acquisition of %s", shortFn(f), held), instrPos(c.Prog, sec.Lock.Instr), "no call inside the section reaches a Lock/RLock of the same mutex")
+			}
+		}
+	}
+	// cycles among distinct shared locks
+	cyc := ""
+	for a, m := range order {
+		for b, where := range m {
+			if _, back := order[b][a]; back {
+				cyc = a + " -> " + b + " (" + where + ") and back (" + order[b][a] + ")"
+			}
+		}
+	}
+	res.Check(cyc == "", rule6, "shared locks are acquired in one order", "", fmt.Sprintf("%d nested acquisitions, no cycle", len(order)), "lock-order inversion: "+cyc)
+	res.Analysed["reentrancy_sections"] = n6
 	res.Analysed["shared_mutex_fields"] = sortedKeys(shared)
 	res.Analysed["critical_sections"] = n
 }
